@@ -8,7 +8,7 @@
    _bounded are additional kernel computations over complete finite domains. *)
 From Coq Require Import ZArith List Bool.
 Import ListNotations.
-From CF Require Import ZSum ListAux Defs Core Machines Config ConfigLink BoundsLink ParkingLink ParkingCount PyLib Translated TranslatedLink Det LatticeIndex MatrixTree.
+From CF Require Import ZSum ListAux Defs Core Machines Config ConfigLink BoundsLink ParkingLink ParkingCount PyLib Translated TranslatedLink Det LatticeIndex MatrixTree PyDict ImpRep ImpLinkScript TranslatedImpCFConfig ImpLinkConfig.
 Open Scope Z_scope.
 
 Theorem C10_legal : forall g, wfb g = true -> forall D S, (forall v, In v S -> In v (Vg g)) ->
@@ -88,6 +88,15 @@ Print Assumptions C10_source_is_parking_function.
 Theorem C10_source_parking_function_count : forall n, Translated.parking_function_count n = parking_count (Z.to_nat n).
 Proof. exact parking_function_count_eq. Qed.
 Print Assumptions C10_source_parking_function_count.
+
+(* CFConfig.get_out_degree_S as translated from /repo's CURRENT source by tools/translate_imp.py (TranslatedImpCFConfig.v): on dictionaries representing g
+   it is the out-degree of v with respect to S in terms of which legality is defined (Defs.outdeg, C10_legal), and it raises exactly for an unknown v,
+   for q, and for v outside S *)
+Theorem C10_source_get_out_degree_S : forall g gg vs q v S, wfb g = true -> rep_graph gg g -> rep_vset (nv g) vs ->
+  CFConfig_get_out_degree_S vs q gg v S = (if Nat.ltb v (nv g) && negb (Nat.eqb v q) && mem v S then Some (out_degree_S g v S) else None) /\
+  out_degree_S g v S = outdeg (Vg g) (mult g) (fun w => mem w S) v.
+Proof. intros. split; [apply get_out_degree_S_refines; assumption|reflexivity]. Qed.
+Print Assumptions C10_source_get_out_degree_S.
 
 (* ---- bounded identities (complete finite domains, kernel computation) ---- *)
 (* K_(n+1), n <= 4, sink 0: a configuration in the box [0..n]^n is superstable iff shifting it up by one gives a parking function *)
